@@ -52,9 +52,9 @@ enum Cell {
     Res(Result<Heavy, Heavy>),
     CRes(CResult<Heavy, Heavy>),
     T1((Heavy,)), C1(CTup1<Heavy>),
-    T2((Heavy, Heavy)), C2(CTup2<Heavy, Heavy>),
-    T3((Heavy, Heavy, Heavy)), C3(CTup3<Heavy, Heavy, Heavy>),
-    T4((Heavy, Heavy, Heavy, Heavy)), C4(CTup4<Heavy, Heavy, Heavy, Heavy>),
+    T2((Tiny, Heavy)), C2(CTup2<Tiny, Heavy>),
+    T3((Tiny, Mid, Heavy)), C3(CTup3<Tiny, Mid, Heavy>),
+    T4((Mid, Heavy, Tiny, Heavy)), C4(CTup4<Mid, Heavy, Tiny, Heavy>),
 }
 
 struct World<T: El> {
@@ -66,9 +66,54 @@ struct World<T: El> {
     flip: usize,
 }
 
-fn hid(h: &Heavy) -> usize {
-    h.check();
-    h.id as usize
+/// payloads of other sizes and alignments, so that the fields of a tuple cell differ in size: the Rust tuple is then
+/// laid out in an order of the compiler's choosing while the CTupN is in declaration order
+struct Tiny(u8);
+struct Mid(u16);
+impl Tiny {
+    fn new(id: usize) -> Self {
+        assert!(id < 256);
+        payload::note_created(id);
+        Tiny(id as u8)
+    }
+}
+impl Mid {
+    fn new(id: usize) -> Self {
+        payload::note_created(id);
+        Mid(id as u16)
+    }
+}
+impl Drop for Tiny {
+    fn drop(&mut self) {
+        payload::note_drop(self.0 as usize % payload::MAX_ID)
+    }
+}
+impl Drop for Mid {
+    fn drop(&mut self) {
+        payload::note_drop(self.0 as usize % payload::MAX_ID)
+    }
+}
+trait HasId {
+    fn hid(&self) -> usize;
+}
+impl HasId for Heavy {
+    fn hid(&self) -> usize {
+        self.check();
+        self.id as usize
+    }
+}
+impl HasId for Tiny {
+    fn hid(&self) -> usize {
+        self.0 as usize
+    }
+}
+impl HasId for Mid {
+    fn hid(&self) -> usize {
+        self.0 as usize
+    }
+}
+fn hid<H: HasId>(h: &H) -> usize {
+    h.hid()
 }
 
 impl<T: El> World<T> {
@@ -158,9 +203,9 @@ impl<T: El> World<T> {
                     ("res", 0) => Cell::Res(Ok(mk())),
                     ("res", _) => Cell::Res(Err(mk())),
                     ("tup", 1) => Cell::T1((mk(),)),
-                    ("tup", 2) => { let a = mk(); Cell::T2((a, mk())) }
-                    ("tup", 3) => { let a = mk(); let b = mk(); Cell::T3((a, b, mk())) }
-                    _ => { let a = mk(); let b = mk(); let c = mk(); Cell::T4((a, b, c, mk())) }
+                    ("tup", 2) => { let a = Tiny::new(payload::next_id()); Cell::T2((a, mk())) }
+                    ("tup", 3) => { let a = Tiny::new(payload::next_id()); let b = Mid::new(payload::next_id()); Cell::T3((a, b, mk())) }
+                    _ => { let a = Mid::new(payload::next_id()); let b = mk(); let c = Tiny::new(payload::next_id()); Cell::T4((a, b, c, mk())) }
                 };
                 self.last = ok;
             }
